@@ -2,10 +2,18 @@
 # Regenerates MANIFEST.json from the table below (kept in one place so it stays valid).
 import json, subprocess
 claimed = {
+ "C17": dict(
+   text="Deductive proof on the real ReplicateMeteImpl (store as ghost map): after every successful update the in-memory and the persisted ready set of that (task, message) both equal the union of all reports, readiness is reported exactly when that union equals the target set, other messages are untouched, a failing store write changes nothing, and RemoveTaskMsg removes the message from store and memory for collection and partition drops alike. Three genuine defects (F3, F4, F20) were found by failing obligations, reproduced on the real code and repaired by fix: commits.",
+   note="Assumed contracts: api.ReplicateStore Put/Remove are atomic per key; BaseTaskMsg.IsReady == set equality for duplicate-free lists; lo.Union yields the union. Reload from the store is not yet under contract. metaLock: lock-held discipline (lockonly), contracts are sequential.",
+   design="3 (C17)"),
  "C08": dict(
    text="Deductive proof (SSA->SMT VCs, all inputs) that the real getObjState implements the create/drop/re-create decision stated in the property, for all orders of the three timestamps and both presence bits over full uint64.",
    note="Trusted: go/ssa semantics, solvers, logging calls modify nothing. Not decided: truth of the recorded times (C15 / downstream probes).",
    design="3 (C08)"),
+ "C06": dict(
+   text="Deductive proof (with the zero-annotation no-panic sweep) on the real hand-over path of the reader: innerHandleReplicateMsg never panics whatever handlePack returns (nil included), emits at most one pack labelled with the stream's task/collection/channel, SendTargetMsg enqueues exactly the given pack, and sendErrEvent emits exactly one ReplicateError event naming the owning task. Two genuine defects (F1 nil dereference, F2 events without task id) were found by failing obligations, reproduced on the real code and repaired by fix: commits.",
+   note="handlePack itself is not yet verified: at its call site only the frame `modifies * except out` is assumed. Server-side pause path (pauseTaskWithReason, event loop, batch callback) not yet under contract (DESIGN.md section 10). Channel sends are ghost events; goroutine interleavings are out of reach.",
+   design="3 (C06)"),
  "C12": dict(
    text="Deductive proof of the key algebra of the etcd metadata backend on the real key functions: each key function equals its spec (path.Join modelled), keys are injective in task and collection, the per-task scan prefix covers only that task's keys (ids sharing a prefix are not touched), task-info and position keyspaces are disjoint, and roots that are not '/'-boundary prefixes of each other are isolated.",
    note="Proved for identifiers without '/', '.', '..' and clean root paths (stated as requires/assumes). Trusted: path.Join model, decimal rendering of int64 is injective and '/'-free, etcd range semantics. Not yet under contract in this round: MySQL SQL text, record read-modify-write, transactional delete (see DESIGN.md section 10).",
